@@ -16,7 +16,7 @@ from ..flow import Flow
 from .C06 import fold
 
 GEO = "typhon/geodesy.py"
-EXPECT = {"C07.losopt": 3, "C07.geodetic": 3, "C07.radius": 3, "C07.sphere": 4, "C07.dist": 5, "C07.fixpoint": 3, "C07.tol": 2, "C07.compose": 2, "C07.models": 2, "C07.los": 1}
+EXPECT = {"C07.buffers": 2, "C07.args": 8, "C07.losopt": 3, "C07.geodetic": 3, "C07.radius": 3, "C07.sphere": 4, "C07.dist": 5, "C07.fixpoint": 4, "C07.tol": 2, "C07.compose": 2, "C07.models": 2, "C07.los": 1}
 
 sp_, cp_, sl_, cl_ = sp.symbols("s_phi c_phi s_lam c_lam", real=True)
 RELS = [sp_ ** 2 + cp_ ** 2 - 1, sl_ ** 2 + cl_ ** 2 - 1]
@@ -326,6 +326,34 @@ def rule_fixpoint(ctx):
     if Bn is not None and Bn.func.__name__ == "ATAN":
         okB = reduce_trig(Bn.args[0] * cB - sB, rel, (sB, cB)) == 0
     ctx.ob("cart2geodetic.iteration.B", okB, "B' = %s" % (sp.simplify(Bn) if Bn is not None else None), "arctan(tan B) = B: the true latitude is a fixed point", node=w, func=f)
+    # what is recomputed after the loop (the height of the newest iterate) is evaluated with the caller's ellipsoid as well
+    blk_ = None
+    for fld_ in ("body", "orelse"):
+        b_ = getattr(parent(w), fld_, None)
+        if isinstance(b_, list) and any(x is w for x in b_):
+            blk_ = b_
+    after_ = [st for st in (blk_[[i_ for i_, x in enumerate(blk_) if x is w][0] + 1:] if blk_ else []) if not isinstance(st, ast.Return)]
+    touches_h = any(isinstance(n_, ast.Name) and isinstance(n_.ctx, ast.Store) and n_.id == "h" for st in after_ for n_ in ast.walk(st))
+    if touches_h:
+        aw, ew = sp.symbols("a_WGS84 e_WGS84", positive=True)
+
+        class _Models:
+            pass
+        hooks2 = dict(hooks)
+        hooks2["ellipsoidmodels"] = lambda *a_: _Models()
+        hooks2["subscript"] = lambda base, n_, *r_: (aw, ew) if isinstance(base, _Models) else NotImplemented
+        ev2 = Sym(ctx.repo, hooks=hooks2)
+        enva = dict(envl)
+        enva["B0"] = B      # at the fixed point the newest iterate is the true latitude
+        ev2.block(after_, enva, f, 0)
+        ha = enva.get("h")
+        if hasattr(ha, "force"):
+            ha = ha.force()
+        oka = ha is not None and reduce_trig(ha - h, rel, (sB, cB)) == 0
+        ctx.ob("cart2geodetic.iteration.h_after", oka, "after the loop h = %s" % (sp.simplify(ha) if ha is not None else None),
+               "h: the height recomputed for the newest iterate uses the caller's ellipsoid like the iteration itself", node=after_[0], func=f)
+    else:
+        ctx.ob("cart2geodetic.iteration.h_after", True, "h is not recomputed after the loop", "-", node=w, func=f)
     sph = [st for st in flow.stmts if isinstance(st, ast.If) and norm(st.test).replace(" ", "") in ("e2==0.0", "e2==0")]
     oks = False
     if sph:
@@ -636,6 +664,41 @@ def rule_los_options(ctx):
            node=builtin_any[0] if builtin_any else np_any[0], func=g, witness=None if not builtin_any else {"shape": [2, 3], "raises": "ValueError: truth value of an array is ambiguous"})
 
 
+def rule_buffers(ctx):
+    ctx.rule("C07.buffers", "T1", "the result arrays of the position + line-of-sight conversions are floating point whatever the dtype of the arguments")
+    FLOAT = ("float", "np.float64", "np.float_", "np.double", "'float'", "'float64'", "'f8'", "np.longdouble")
+    for name in ("geocentricposlos2cart", "cartposlos2geocentric"):
+        f = ctx.func(GEO, name)
+        allocs = [c for c in calls_in(f.node) if (dotted(c.func) or "").split(".")[-1] in
+                  ("empty", "zeros", "ones", "full", "empty_like", "zeros_like", "ones_like", "full_like")]
+        if not allocs:
+            raise AnalysisError("%s: no result array is allocated - the way results are built is not analysed" % name)
+        bad = []
+        for c in allocs:
+            last = (dotted(c.func) or "").split(".")[-1]
+            dt = [k.value for k in c.keywords if k.arg == "dtype"]
+            if not dt and last in ("empty", "zeros", "ones") and len(c.args) > 1:
+                dt = [c.args[1]]
+            if dt:
+                if str(norm(dt[0])) not in FLOAT:
+                    bad.append("%s: dtype %s" % (norm(c)[:50], norm(dt[0])))
+            elif last.endswith("_like") and c.args and isinstance(c.args[0], ast.Name) and any(
+                    d_ != "param" and isinstance(d_, ast.Assign) and any(t_ in str(norm(d_.value)).replace(" ", "") for t_ in ("astype(float", "dtype=float", "dtype=np.float64", "np.float64("))
+                    for d_ in Flow(f).defs(c.args[0].id, enclosing_stmt(c))):
+                pass        # shaped like an array that was converted to floating point before
+            elif last.endswith("_like"):
+                bad.append("%s: takes the dtype of its argument" % norm(c)[:50])
+            elif last == "full" and len(c.args) > 1 and isinstance(c.args[1], ast.Constant) and isinstance(c.args[1].value, int) \
+                    and not isinstance(c.args[1].value, bool):
+                bad.append("%s: integer fill value makes an integer array" % norm(c)[:50])
+        ctx.ob("%s.buffers" % name, not bad, "%d allocations; not floating point: %s" % (len(allocs), bad or "none"),
+               "np.empty(shape) / an explicit float dtype: a buffer shaped AND typed like an argument truncates the coordinates and the unit "
+               "line-of-sight vector for integer-typed input", node=allocs[0], func=f)
+
+
 def run(ctx):
-    for r in (rule_geodetic, rule_radius, rule_sphere, rule_dist, rule_fixpoint, rule_tol, rule_compose, rule_models, rule_los, rule_los_options):
+    for r in (rule_geodetic, rule_radius, rule_sphere, rule_dist, rule_fixpoint, rule_tol, rule_compose, rule_models, rule_los, rule_los_options, rule_buffers):
         ctx.attempt(r, ctx)
+    # the caller's arguments (arrays, filter / fill dictionaries) are not modified: an in-place update makes the next call on the same objects wrong
+    from ..purity import rule_pure as _rule_args
+    ctx.attempt(_rule_args, ctx, "C07.args", [('typhon/geodesy.py', 'cart2geodetic'), ('typhon/geodesy.py', 'geodetic2cart'), ('typhon/geodesy.py', 'great_circle_distance'), ('typhon/geodesy.py', 'tunnel_distance'), ('typhon/geodesy.py', 'geocentricposlos2cart'), ('typhon/geodesy.py', 'cartposlos2geocentric'), ('typhon/geodesy.py', 'geocentric2cart'), ('typhon/geodesy.py', 'cart2geocentric')], "the caller's arguments are not modified in place")
